@@ -411,3 +411,51 @@ func VH_C05_L7_dirty_pool() {
 	}
 	zzverif.Reach("C05/L7c")
 }
+
+// L8: attaching a logger to a Go context that ALREADY carries one yields a new context; the
+// logger reachable through the outer context (and every other context derived from it) is
+// unchanged.
+func VH_C05_L8_withcontext() {
+	wa, wb := &vWriter{}, &vWriter{}
+	a := New(wa).With().Str("who", "a").Logger()
+	base := a.WithContext(context.Background())
+	var b Logger
+	switch zzverif.Choice(3) {
+	case 0:
+		b = New(wb).With().Str("who", "b").Logger()
+	case 1:
+		b = Ctx(base).With().Str("req", "1").Logger().Output(wb)
+	case 2:
+		b = New(wb).Level(Disabled)
+	}
+	child := b.WithContext(base)
+	zzverif.Assert(child != base, "WithContext on a context that carries another logger returns a new context")
+	Ctx(base).Info().Msg("m")
+	zzverif.Assert(len(wa.calls) == 1 && zzverif.ContainsBytes(wa.calls[0].buf, []byte(`"who":"a"`)) && !zzverif.ContainsBytes(wa.calls[0].buf, []byte(`"req"`)), "the logger reachable through the outer context is unchanged by attaching another logger to a derived context")
+	zzverif.Assert(len(wb.calls) == 0, "the outer context's logger still writes to its own writer")
+	zzverif.Reach("C05/L8")
+}
+
+// L9: Context.Reset inside UpdateContext starts the logger's context afresh without touching
+// loggers derived from it earlier (Level/Hook/Sample copies share its context bytes).
+func VH_C05_L9_reset() {
+	w := &vWriter{}
+	a := New(w).With().Str("svc", "api").Logger()
+	var sib Logger
+	switch zzverif.Choice(3) {
+	case 0:
+		sib = a.Level(InfoLevel)
+	case 1:
+		sib = a.Hook(vTagHook{"s"})
+	case 2:
+		sib = a.Sample(nil)
+	}
+	before := vSnapshotBytes(sib.context)
+	a.UpdateContext(func(c Context) Context { return c.Reset().Str("job", "gc1") })
+	zzverif.Assert(zzverif.EqualBytes(sib.context, before), "UpdateContext with Reset leaves loggers derived earlier unchanged")
+	line := vEmit(sib)
+	zzverif.Assert(line != nil && zzverif.ContainsBytes(line, []byte(`"svc":"api"`)) && !zzverif.ContainsBytes(line, []byte(`"job"`)), "a logger derived earlier still emits its own context after the parent was reset")
+	la := vEmit(a)
+	zzverif.Assert(la != nil && zzverif.ContainsBytes(la, []byte(`"job":"gc1"`)) && !zzverif.ContainsBytes(la, []byte(`"svc"`)), "the reset logger emits only its new context")
+	zzverif.Reach("C05/L9")
+}
